@@ -524,7 +524,8 @@ func (s *SplitExp) BindingPath(bindPath string,
 						" vs " + strconv.Itoa(len(keys)),
 				})
 			}
-			for k := range val.Value {
+			// Report the same key on every run.
+			for _, k := range val.sortedKeys() {
 				if _, ok := keys[k]; !ok {
 					return s, s.wrapError(&bindingError{
 						Msg: "map key missing " + strconv.Quote(k),
